@@ -70,8 +70,7 @@ def run(R):
         if v == 'confirmed':
             R.ob(name, 'discharged' if reach else 'not_discharged', dt / (2 * GROUP), {'twin': rmsg[:120]}, nontrivial=reach)
         elif v == 'refuted':
-            argn = ['i0', 'i1', 'j0', 'j1', 'j2', 'p0', 'p1', 'f0', 'f1', 'k0', 'k1', 'k2', 'k3', 'b0', 'b1', 'b2', 'm0', 'm1', 'm2', 'm3', 'm4',
-                    'n0', 'n1', 'n2']
+            argn = H.ARGN
             args = chrun.parse_counterexample(msg, argn)
             if args is None:
                 raise HarnessError(f'cannot parse CrossHair counterexample: {msg}')
@@ -97,9 +96,7 @@ def run(R):
 def concrete(H, k, args, dict_missing):
     a = args
     try:
-        val = H.value(k, [a['i0'], a['i1'], a['j0'], a['j1'], a['j2'], a['p0'], a['p1']], [a['f0'], a['f1']], [a['k0'], a['k1'], a['k2'], a['k3']],
-                      [a['b0'], a['b1'], a['b2']], [a['m0'], a['m1'], a['m2'], a['m3'], a['m4']], [a['n0'], a['n1'], a['n2']],
-                      dict_missing)
+        val = H.value(k, *H.unpack(a), dict_missing)
     except Exception as e:  # noqa: BLE001
         return False, None, f'[value builder raised {type(e).__name__}: {e}]'
     try:
